@@ -28,6 +28,7 @@ type Mutex struct {
 	obj    vsched.Obj
 	locked bool
 	real   sync.Mutex
+	ep     uint64 // execution the scheduler-side state belongs to (see vsched.ExecEpoch)
 }
 
 //go:norace
@@ -45,6 +46,9 @@ func (m *Mutex) Lock() {
 
 //go:norace
 func (m *Mutex) init() {
+	if e := vsched.ExecEpoch(); m.ep != e {
+		m.ep, m.locked = e, false
+	}
 	if m.obj.State == nil {
 		m.obj.Label = "mutex"
 		m.obj.Lock = true
@@ -120,10 +124,14 @@ type RWMutex struct {
 	real    sync.RWMutex
 	rtag    byte // address used for the reader side race annotations
 	wtag    byte
+	ep      uint64
 }
 
 //go:norace
 func (m *RWMutex) init() {
+	if e := vsched.ExecEpoch(); m.ep != e {
+		m.ep, m.writer, m.readers = e, false, 0
+	}
 	if m.obj.State == nil {
 		m.obj.Label = "rwmutex"
 		m.obj.Lock = true
